@@ -112,9 +112,9 @@ prop('C12', technique='contract-based deductive verification of the stopping pre
      assumptions=['the machine state is changed by tick() only (frame of run/next: last_breakpoint, halted, halt_reason, breakpoints)'],
      not_covered=['trace clauses: "stepping stops in every simple statement in execution order", "next never stops inside a callee", progress of '
                   'step/next (need termination of the stepped fragment) — not decidable per call', 'do_step / do_next themselves'])
-prop('C13', technique='contract-based deductive verification of the evaluator\\'s addressing (layout contracts) and frame conditions; arrays bounded',
-     explanation='eval_var resolves names through the layout functions of C04 (global first, then the frame\\'s routine); scalar, by-reference, record '
-                 'reads return the cell contents and write nothing; unknown / unassigned names are EvalError; arrays against arridx\\'s address function',
+prop('C13', technique='contract-based deductive verification of the evaluator addressing (layout contracts) and frame conditions; arrays bounded',
+     explanation='eval_var resolves names through the layout functions of C04 (global first, then the routine of the frame); scalar, by-reference, record '
+                 'reads return the cell contents and write nothing; unknown / unassigned names are EvalError; arrays against the address function of arridx',
      assumptions=['expression text parsing (pyparsing)', 'operators are evaluated by BinaryOp.eval / UnaryOp.eval, proved equivalent to the machine under C02'],
      not_covered=['type resolution of names inside procedures (Lvalue.base_type through the main routine)', 'arrays beyond the bounded shapes',
                   '__str__ renderings'])
